@@ -407,7 +407,9 @@ func (c *Ctx) lenAtMostOne(m *core.Module, l *mapLoop) bool {
 				continue
 			}
 			bi, ok := call.Call.Value.(*ssa.Builtin)
-			if !ok || bi.Name() != "len" || m.ValPath(call.Call.Args[0]) != mp {
+			// (the test may sit in a predicate of the receiver that the loop is entered behind: its receiver stands for the
+			// value it was called on)
+			if !ok || bi.Name() != "len" || m.CondPath(l.fn, cond, call.Call.Args[0]) != mp {
 				continue
 			}
 			n, ok := core.ConstInt(bin.Y)
